@@ -141,6 +141,8 @@ pub struct Node {
     pub fb: u16,
     /// maker declared with `lru = 1` (its Vec of structs can be evicted; identities must survive)
     pub lru_maker: bool,
+    /// fixpoint function additionally declared with `lru = 1`
+    pub lru_fix: bool,
 }
 
 #[derive(Clone, PartialEq, Eq, Debug, Hash)]
@@ -184,7 +186,7 @@ impl fmt::Display for Prog {
     fn fmt(&self, f: &mut fmt::Formatter<'_>) -> fmt::Result {
         write!(f, "cells={} unt={}; ", self.ncells, self.nunt)?;
         for (i, n) in self.nodes.iter().enumerate() {
-            write!(f, "n{i}:{:?}", n.kind)?;
+            write!(f, "n{i}:{:?}{}", n.kind, if n.lru_fix { "[lru=1]" } else { "" })?;
             if n.kind == Kind::Fb {
                 write!(f, "[fb={}]", n.fb)?;
             }
@@ -338,6 +340,8 @@ pub struct GenCfg {
     pub dur_profile: bool,
     /// value-neutral accumulation guarded by inputs
     pub neutral_acc: bool,
+    /// some fixpoint functions are also lru functions
+    pub lru_fix: bool,
 }
 
 #[derive(Clone, Debug)]
@@ -377,6 +381,7 @@ impl GenCfg {
             lru_makers: false,
             dur_profile: false,
             neutral_acc: false,
+            lru_fix: false,
         }
     }
 }
@@ -557,6 +562,7 @@ pub fn gen_prog(rng: &mut Rng, cfg: &GenCfg) -> Prog {
             mk: vec![],
             fb: 0,
             lru_maker: false,
+            lru_fix: false,
         };
         if kind == Kind::Maker {
             node.lru_maker = cfg.lru_makers && g.rng.chance(1, 2);
@@ -739,6 +745,7 @@ fn gen_cyclic(rng: &mut Rng, cfg: &GenCfg, c: &CycCfg) -> Prog {
             mk: vec![],
             fb: (rng.next() as u16) & mask,
             lru_maker: false,
+            lru_fix: cfg.lru_fix && kind == Kind::Fix && rng.chance(1, 2),
         });
     }
     Prog {
@@ -768,6 +775,7 @@ fn tmpl_relay(rng: &mut Rng, mask: u16, kinds: &[Kind]) -> Prog {
         mk: vec![],
         fb: 0,
         lru_maker: false,
+        lru_fix: false,
     };
     // n0 head, n1 head_copy, n2 relay, n3 down, n4 down_copy
     let mut nodes = vec![
